@@ -136,3 +136,27 @@ CHECKS["C18"] = {
                  "with a happens-before race detector and history oracles over the model-call log",
     "determinism_runs": 600, "exec_timeout": 120, "batch_timeout": 600, "minimise_s": 90,
 }
+
+CHECKS["C12"] = {
+    "id": "C12", "engine": "sched+race", "flavour": "thr", "binary": "build/thr/c12", "level": "exploration",
+    "tiers": {"quick": {"runs": 60000, "batch": 250, "wall_cap": 300}, "thorough": {"runs": 1500000, "batch": 500, "wall_cap": 2400}},
+    "rule": "one case = a seeded grid (all five families; wavelets over-sampled because they hold the only mutable CPU-side cache; 0-2 outputs; fresh, loaded, refined, merged, constructing, coefficient-set states via a seeded history; "
+            "optionally written and read back first) shared as const reference by 2-4 caller tasks that each issue 1-3 const calls from a menu of 25 (evaluate, evaluateBatch double/float, interpolation / quadrature / "
+            "differentiation weights, integrate, differentiate, dense and sparse hierarchical functions, support, integrals, coefficients, points, values, polynomial space, anisotropic coefficients, write binary/ASCII, "
+            "printStats, copy construction, refinement of a private copy, the whole observe() digest) + one seeded schedule with pre-emption at instrumented memory accesses; distinct = distinct (grid state shape, call lists); "
+            "distinct_interleavings = distinct schedule traces",
+    "components": {"real": ["every const member function of TasmanianSparseGrid in the call menu and the per-family code below it", "libstdc++ std::thread (its pthread calls are interposed)"],
+                   "simulated": ["caller threads: real threads of which exactly one runs at a time; a seeded scheduler (random walk, PCT, round-robin, starvation, run-to-block) decides at thread create/exit/join and at a seeded subset of instrumented memory accesses",
+                                 "happens-before race detector over every instrumented load and store (g++ -fsanitize=thread hooks, linked without libtsan), memcpy/memmove/memset as range events, operator new/delete with quarantine"],
+                   "stub": ["libpthread create/join (replaced by the scheduler for simulation tasks)"]},
+    "expect_probes": ["reach.wavelet_weight_query_concurrent", "reach.grid_read_from_stream", "fault.preemption_at_memory_access", "call.observe", "call.interpolationWeights", "call.writeBinary", "call.copy"],
+    "assumptions": ["calls are issued only in states where the documentation allows them (surrogate calls on loaded grids, nothing but getters and write on a grid without points)",
+                    "uninstrumented code (libstdc++.so internals) is invisible to the race detector: possible misses, no false alarms",
+                    "each call's concurrent result is compared bit-for-bit with the same call executed alone on a copy of the grid"],
+    "level_text": "seeded exploration of caller-thread interleavings at memory-access granularity over seeded grid states and const-call multisets, with a happens-before race detector over every instrumented access, "
+                  "bit-identical results against the calls run alone, unchanged serialised state, and crash / use-after-free detection",
+    "level_note": "samples grid states, call multisets and schedules; a clean batch is evidence, not proof. Race detection is happens-before based: a race between two executed accesses is reported in every schedule that executes both, "
+                  "so the search is needed for reaching the code paths and for the result oracle. Trusted: the interposition layer and detector (sim/simrt.cpp)",
+    "technique": "deterministic simulation of caller threads (real threads, one runs at a time, seeded scheduler with pre-emption at instrumented memory accesses) with a happens-before race detector and a run-alone reference for every call",
+    "determinism_runs": 1500, "exec_timeout": 120, "batch_timeout": 600, "minimise_s": 60,
+}
